@@ -41,6 +41,7 @@ def markers_before_carrier(case):
     car = case['carrier']
     out = []
     cph = car['ph']
+    other_place = car['where'] == 'suite' or (car['where'] == 'inc' and car.get('inc_from') not in (None, cph))
     for ph in ['setup', 'act', 'before-assert', 'assert', 'cleanup']:
         if cph != 'conf' and EXEC_ORDER.index(ph) > EXEC_ORDER.index(cph):
             break
@@ -49,10 +50,10 @@ def markers_before_carrier(case):
                 out.append('act')
             continue
         for i, _ in enumerate(case['effects'][ph]):
-            if ph == cph and i >= car['pos'] and car['where'] != 'suite':
+            if ph == cph and (i >= car['pos'] or other_place):
+                # (the contents of a suite come first; contents included from another phase come where the text
+                # order puts them: nothing of the phase is demanded then)
                 break
-            if ph == cph and car['where'] == 'suite':
-                break  # the contents of the suite come first
             out.append('%s%d' % (ABBR[ph], i))
     return out
 
@@ -113,8 +114,13 @@ def build_files(case, defect=None):
         carrier_block.append(later_line)
     files = {}
     suite_sections = None
+    place_ph = cph
     if where == 'inc':
         inc = (['$ echo inc >> {MARKERS}'] if car.get('inc_marker') and cph in IPHASES else []) + carrier_block
+        if car.get('inc_from') not in (None, cph):
+            # included from another phase: the included file says which phase its contents belong to
+            place_ph = car['inc_from']
+            inc = ['[%s]' % cph] + inc
         files[CG.INC_NAME] = '\n'.join(inc) + ('\n' if case.get('final_newline', True) else '')
         placed = ['including ' + CG.INC_NAME]
     elif where == 'suite':
@@ -131,10 +137,10 @@ def build_files(case, defect=None):
     for p in IPHASES:
         lines = []
         for i, kind in enumerate(case['effects'][p]):
-            if p == cph and i == car['pos']:
+            if p == place_ph and i == car['pos']:
                 lines += placed
             lines += effect_lines(p, i, kind)
-        if p == cph and car['pos'] >= len(case['effects'][p]):
+        if p == place_ph and car['pos'] >= len(case['effects'][p]):
             lines += placed
         ph_lines[p] += lines
     if cph == 'act':
@@ -154,6 +160,11 @@ def build_files(case, defect=None):
     order = list(case['order'])
     if case.get('at_eof') and where == 'main':
         order = [p for p in order if p != cph] + [cph]
+    if place_ph != cph and cph == 'setup' and order.index('setup') > order.index(place_ph):
+        # [setup] contents included from another phase: the definitions of the main file must come first
+        i, j = order.index('setup'), order.index(place_ph)
+        order[i], order[j] = order[j], order[i]
+    suite_name = SUITE_NAME if not car.get('suite_explicit') else 'x.suite'
     lines = []
     for p in order:
         if p == 'conf' and not ph_lines['conf']:
@@ -172,29 +183,32 @@ def build_files(case, defect=None):
         for p in ['setup'] + [q for q in suite_sections if q != 'setup']:
             s_lines.append('[%s]' % p)
             s_lines += suite_sections[p]
-        files[SUITE_NAME] = '\n'.join(s_lines) + ('\n' if case.get('final_newline', True) else '')
-        suite = SUITE_NAME
-    textually_earlier = False
-    if later_ph is not None:
-        textually_earlier = order.index(later_ph) < order.index(cph) if where == 'main' else False
-    return {'files': files, 'suite': suite, 'later_textually_earlier': textually_earlier,
-            'carrier_lines': carrier_lines}
+        files[suite_name] = '\n'.join(s_lines) + ('\n' if case.get('final_newline', True) else '')
+        suite = suite_name
+    later_where = None
+    if later is not None:
+        later_where = 'same-phase' if later_ph is None else 'later-phase'
+        if later_ph is not None and where == 'main' and order.index(later_ph) < order.index(cph):
+            later_where += '/textually-earlier'
+    return {'files': files, 'suite': suite, 'later_where': later_where, 'carrier_lines': carrier_lines}
 
 
 def argv_for(mode, built):
     """-> (extra files, argv)"""
+    # a suite that is not named exactly.suite is given by --suite
+    so = ['--suite', built['suite']] if built['suite'] not in (None, SUITE_NAME) else []
     if mode == 'run':
-        return {}, ['t.case']
+        return {}, so + ['t.case']
     if mode == 'keep':
-        return {}, ['--keep', 't.case']
+        return {}, ['--keep'] + so + ['t.case']
     if mode == 'act':
-        return {}, ['--act', 't.case']
+        return {}, so + ['--act', 't.case']
     if mode == 'symbol':
-        return {}, ['symbol', 't.case']
+        return {}, ['symbol'] + so + ['t.case']
     if mode == 'symbol-def':
-        return {}, ['symbol', 't.case', 'S']
+        return {}, ['symbol'] + so + ['t.case', 'S']
     if mode == 'symbol-ref':
-        return {}, ['symbol', 't.case', 'S', '--ref']
+        return {}, ['symbol'] + so + ['t.case', 'S', '--ref']
     if mode == 'suite':
         if built['suite']:
             text = built['files'][built['suite']]
@@ -208,7 +222,7 @@ def argv_for(mode, built):
 # ---- strategy --------------------------------------------------------------------------------------------------------------
 _EFFECT = st.sampled_from(['marker', 'marker', 'marker', 'marker', 'file', 'dir'])
 # weights of the operator families when several are applicable (rare ones first so that they are not drowned)
-_OP_WEIGHT = {'wrong-type': 5, 'defined-later': 3, 'undefined': 2, 'self-reference': 5, 'wrong-type-indirect': 3,
+_OP_WEIGHT = {'wrong-type': 5, 'defined-later': 3, 'undefined': 2, 'self-reference': 5, 'wrong-type-indirect': 3, 'wrong-type-in-path': 5,
               'relativity-via-symbol': 4, 'relativity-option': 2, 'missing-home-file': 5, 'bad-integer': 6,
               'bad-integer-via-symbol': 3, 'bad-regex': 6, 'bad-regex-via-symbol': 3, 'bad-replacement': 6,
               'bad-range': 6, 'bad-enum': 2, 'unterminated-here-doc': 3, 'duplicate-definition': 2,
@@ -241,28 +255,36 @@ def generated_cases(draw, tier='quick'):
         elems = CG.including_carrier(g)
     else:
         elems = CG.instruction_carrier(g, cph)
+    if len(elems) == 1 and elems[0]['name'] == 'def' and draw(st.booleans()):
+        use = CG.use_of_definition(elems[0], cph)
+        if use is not None:
+            elems = elems + [use]
     if cph in ('conf', 'act'):
         where = 'main' if cph == 'act' else draw(st.sampled_from(['main', 'main', 'main', 'suite']))
         pos = 0
     else:
         where = draw(st.sampled_from(['main'] * 6 + ['inc', 'inc', 'suite']))
         n = len(effects[cph])
-        pos = draw(st.sampled_from([0, n, n, draw(st.integers(0, n))]))
+        pos = draw(st.sampled_from([0, n, n] + list(range(n + 1)) + list(range(1, n))))
     if any(e['name'] == 'including' for e in elems) and where == 'inc':
         where = 'main'
     at_eof = draw(_ONE_IN_4)
     case = {'effects': effects, 'order': list(draw(st.permutations(EXEC_ORDER))),
             'blank_lines': draw(st.booleans()), 'final_newline': draw(st.booleans()),
             'carrier': {'ph': cph, 'pos': pos, 'where': where, 'actor': actor, 'elems': elems,
-                        'inc_marker': draw(st.booleans())},
+                        'inc_marker': draw(st.booleans()), 'suite_explicit': draw(st.booleans()),
+                        'inc_from': draw(st.sampled_from([None, None] + IPHASES)) if cph in IPHASES else None},
             'at_eof': at_eof, 'symbol_check': draw(_ONE_IN_4)}
     if at_eof and where == 'main' and cph in IPHASES:
         case['carrier']['pos'] = len(effects[cph])
+    if where == 'inc' and case['carrier']['inc_from'] not in (None, cph):
+        n = len(effects[case['carrier']['inc_from']])
+        case['carrier']['pos'] = min(pos, n)
     eof = is_at_eof(case)
     # applicable operators, by family
     fam = {}
     for ei, e in enumerate(elems):
-        ctx = 'def-unused' if e['name'] == 'def' else 'used'
+        ctx = 'def-unused' if e['name'] == 'def' and not any(x.get('use_of') for x in elems) else 'used'
         for op in CG.ops_for(elems, ei, cph, eof, ctx):
             fam.setdefault(op['op'], []).append((ei, op))
     names = sorted(fam)
@@ -282,3 +304,69 @@ def generated_cases(draw, tier='quick'):
         defects.append({'ei': ei, 'op': op, 'mode': mode})
     case['defects'] = defects
     return case
+
+
+# ---- deterministic sample: carriers from a seeded choice sequence, every (operator, hole) of each -----------------------
+_ENUM_PHASES = ['setup', 'assert', 'cleanup', 'before-assert', 'act', 'assert', 'setup', 'cleanup', 'conf', 'assert']
+_ENUM_WHERE = ['main', 'main', 'inc', 'main', 'suite', 'main', 'inc']
+_ENUM_MODES = ['run', 'run', 'keep', 'run', 'symbol', 'run', 'act', 'suite', 'run', 'symbol-ref', 'run', 'symbol-def']
+ENUM_CARRIERS = {'quick': 130, 'thorough': 2000}
+
+
+def enumerated_cases(tier):
+    """independent of VERIF_SEED: carrier k comes from random.Random(k); of every (operator family, hole) of the
+    carrier two variants are taken; defects are grouped by 10 around one control run"""
+    import random
+    for k in range(ENUM_CARRIERS[tier]):
+        rnd = random.Random(4200 + k)
+        g = CG.ChoiceCG(lambda m: rnd.randrange(m), CG.FOCI[k % len(CG.FOCI)])
+        cph = _ENUM_PHASES[k % len(_ENUM_PHASES)]
+        actor = 'command'
+        if cph == 'conf':
+            elems = CG.conf_carrier(g)
+        elif cph == 'act':
+            actor = ['command', 'file', 'command', 'source'][(k // len(_ENUM_PHASES)) % 4]
+            elems = CG.act_carrier(g, actor)
+        elif k % 41 == 40:
+            elems = CG.including_carrier(g)
+        else:
+            elems = CG.instruction_carrier(g, cph)
+        if len(elems) == 1 and elems[0]['name'] == 'def' and k % 2:
+            use = CG.use_of_definition(elems[0], cph)
+            if use is not None:
+                elems = elems + [use]
+        where = _ENUM_WHERE[k % len(_ENUM_WHERE)]
+        if cph == 'act' or (cph == 'conf' and where == 'inc') or \
+                (where == 'inc' and any(e['name'] == 'including' for e in elems)):
+            where = 'main'
+        effects = {p: ['marker'] * (1 + (k + i) % 2) for i, p in enumerate(IPHASES)}
+        n = len(effects[cph]) if cph in IPHASES else 0
+        order = list(EXEC_ORDER)
+        rnd.shuffle(order)
+        case = {'effects': effects, 'order': order, 'blank_lines': bool(k % 3 == 0), 'final_newline': bool(k % 4),
+                'carrier': {'ph': cph, 'pos': [n, 0, n, 1][k % 4] if n else 0, 'where': where, 'actor': actor,
+                            'elems': elems, 'inc_marker': bool(k % 2), 'suite_explicit': bool(k % 2),
+                            'inc_from': None},
+                'at_eof': k % 2 == 0, 'symbol_check': k % 5 == 0}
+        if case['at_eof'] and where == 'main' and cph in IPHASES:
+            case['carrier']['pos'] = n
+        eof = is_at_eof(case)
+        groups = {}
+        for ei, e in enumerate(elems):
+            ctx = 'def-unused' if e['name'] == 'def' and not any(x.get('use_of') for x in elems) else 'used'
+            for op in CG.ops_for(elems, ei, cph, eof, ctx):
+                groups.setdefault((ei, op['op'], op.get('tok', op.get('start'))), []).append((ei, op))
+        chosen = []
+        for key in sorted(groups, key=str):
+            lst = groups[key]
+            for _ in range(min(2, len(lst))):
+                ei, op = lst[rnd.randrange(len(lst))]
+                op = dict(op)
+                if 'later' in op:
+                    op['later'] = dict(op['later'], k=rnd.randrange(4))
+                chosen.append({'ei': ei, 'op': op, 'mode': _ENUM_MODES[(k + len(chosen)) % len(_ENUM_MODES)]})
+        for i in range(0, len(chosen), 10):
+            c = dict(case)
+            c['defects'] = chosen[i:i + 10]
+            c['symbol_check'] = case['symbol_check'] and i == 0
+            yield c
